@@ -87,11 +87,11 @@ def valid_candidates(t):
 def reject_candidates(t):
     """Values the statement names as 'must be rejected'. None if the type has no such class."""
     if t in U16:
-        return st.sampled_from([-1, 65536, 2**32, -(2**63), 70000])
+        return st.sampled_from([-1, 65536, 2**32, -(2**63), 70000, 65535.5, -0.5, 65535.000001, -0.001])
     if t == "uint32":
-        return st.sampled_from([-1, 2**32, 2**32 + 1, 2**64, -5])
+        return st.sampled_from([-1, 2**32, 2**32 + 1, 2**64, -5, 4294967295.5, -0.5, -0.001])
     if t == "boolean":
-        return st.sampled_from([2, -1, 255, 2**40])
+        return st.sampled_from([2, -1, 255, 2**40, 1.5, -0.001, -0.5, 1.000001])
     if t == "digest":
         return st.sampled_from([
             ("zz" * 16, None, None), ("abcd", None, None), (None, "00" * 19, None), (None, None, "0" * 63),
